@@ -177,7 +177,7 @@ PROPS = {
         "rule": "cases = operations of seeded histories (8000 ops each) of Insert / LookUp / next-generation / Clear / Resize(+Clear, sometimes without) on a real transp.Table, over pools of 120 keys built to collide "
                 "(same bucket/different signature, same signature/different bucket, same both/different low bits; signatures 0, 0x8000, 0xffff), depths 0..63 with pairs straddling the +2 keep-deeper rule, plies 0..63 at store and probe, scores at 0, +-1, +-(Inf-65..Inf-63), +-Inf and random, "
                 "generations incl. the 255->0 wrap and entries of the previous generation, sizes 32 B (one bucket) .. 2 MiB+32 incl. odd bucket counts and counts not divisible by 4, key pools biased to the first and last buckets, resize up/down and 'resize down, clear, resize up, clear' dances after which every earlier key must be gone. Oracle: executable sequential model keyed by (bucket from the hook, 16-bit signature): every hit must return the modelled depth/bound/move/re-based value, "
-                "no hit for a never-stored or cleared (bucket, signature != 0), a probe right after a store hits and reflects it except for the keep-deeper rule, a store makes at most one other reachable key unreachable (eviction is learned by probing, the policy is not modelled), every other live key is unchanged by a store. "
+                "no hit for a never-stored or cleared (bucket, signature != 0), a probe right after a store hits and reflects it except for the keep-deeper rule, a store makes at most one other reachable key unreachable (eviction is learned by probing, the policy is not modelled), every other live key is unchanged by a store; zero-signature keys are exempt from the no-phantom clause only - an exact store of such a key must be found by the next probe. "
                 "After a resize without clear only memory safety is judged. The lane matcher is tested directly (random words with planted key/key+-1/key^0x8000 lanes and an exhaustive pattern family). All of it repeated on checkptr, -asan and -race builds. "
                 "evaluations = operations + matcher cases; distinct_nontrivial = distinct seeded histories.",
         "assumptions": ["bucket identity comes from the add-only hook VerifBucketIx, so a different but correct index function raises no alarm", "the replacement policy is not modelled: only 'at most one victim per store'"],
